@@ -20,7 +20,7 @@ pub struct Case {
 }
 
 pub fn gen_case() -> impl Strategy<Value = Case> {
-    (prop::collection::vec((0u8..6, 0u8..3), 0..13), 0u8..3, 0u8..16, 0u8..6, prop::option::weighted(0.3, 0u8..12)).prop_map(|(files, subdirs, capsel, route, own)| {
+    (prop::collection::vec((prop_oneof![9 => 0u8..6, 1 => 6u8..9], 0u8..3), 0..13), 0u8..3, 0u8..16, 0u8..6, prop::option::weighted(0.3, 0u8..12)).prop_map(|(files, subdirs, capsel, route, own)| {
         let n = files.len();
         let capacity = (capsel as usize * (n + 2)) >> 4; // monotone map onto 0..=n+1
         Case { files, subdirs, capacity, route, own_existing: own.filter(|_| n > 0).map(|o| (o as usize * n / 12) as u8) }
@@ -36,7 +36,8 @@ pub fn plant(dir: &Path, files: &[(u8, u8)], subdirs: u8, base: i128) {
             let name = format!("f{:02}", i);
             let p = dir.join(&name);
             plant_file(&p, &Val::new(&name, 0, i as u32, 17).encode(), 0o444);
-            let m = base + *slot as i128 * 1_000_000_000_000;
+            // slots 0-5: days in the past (ties abound); slots 6-8: hours in the FUTURE (a peer with a fast clock)
+            let m = if *slot >= 6 { now_ns() + (*slot as i128 - 5) * 3_600_000_000_000 } else { base + *slot as i128 * 1_000_000_000_000 };
             let a = match mark {
                 0 => m - 120_000_000_000,
                 1 => m,
@@ -315,6 +316,9 @@ pub fn run(ctx: &Ctx) -> Report {
             }
             if c.subdirs > 0 {
                 rep.label("stray subdirectories present");
+            }
+            if c.files.iter().filter(|f| f.0 >= 6).count() >= 2 {
+                rep.label("two or more files dated in the future");
             }
             if nontrivial && rep.samples.len() < 3 {
                 let s = json!({"case": c});
